@@ -41,7 +41,7 @@ type e2eEvent struct {
 }
 
 func TestC07EndToEnd(t *testing.T) {
-	sub := lab.Sub("breaker-end-to-end", "rapid histories over {request, request to a backend that never answers (cut by the 2 s handler timeout), set backend behaviour good/5xx/unreachable/abort-mid-body/103-then-5xx/103-then-200, advance} against the real "+
+	sub := lab.Sub("breaker-end-to-end", "rapid histories over {request (one in five offering a protocol upgrade - websocket or h2c - or using POST/HEAD), request to a backend that never answers (cut by the 2 s handler timeout), set backend behaviour good/5xx/unreachable/abort-mid-body/103-then-5xx/103-then-200, advance} against the real "+
 		"LoadBalancer.ServeHTTP with circuit_breaker enabled by configuration, all five strategies, 1-3 scripted backends (L1), virtual time; "+
 		"monitor fed with client status + backend hit counts + published breaker state; non-trivial = breaker opened by proxied failures and half-open reached")
 	sub.NontrivialFloor(0.30)
@@ -66,6 +66,7 @@ func TestC07EndToEnd(t *testing.T) {
 		}
 		var evs []e2eEvent
 		var viol string
+		dressed := 0
 		mon := NewMonitor(c)
 		wd := lab.StartWatchdog(t.Name(), "breaker-end-to-end", lab.NoProgress, func() any {
 			return map[string]any{"cfg": fmt.Sprintf("%+v", c), "strategy": strategy, "backends": nb, "events": evs}
@@ -148,10 +149,26 @@ func TestC07EndToEnd(t *testing.T) {
 						return
 					}
 				case k < pReq:
-					evs = append(evs, e2eEvent{Kind: "req"})
 					before := fn.Arrivals()
 					client := fmt.Sprintf("10.0.0.%d:4000", rapid.IntRange(1, 4).Draw(rt, "client"))
-					status, _, _, aborted := lab.Serve(lb, lab.Request("GET", "/x", client, nil))
+					// request attributes the breaker takes no notice of: one request in five offers a protocol
+					// upgrade (the scripted backends answer it like any other request), has another method or a body
+					dress := rapid.SampledFrom([]string{"", "", "", "", "", "", "", "", "upgrade-websocket", "upgrade-h2c", "post", "head"}).Draw(rt, "dress")
+					evs = append(evs, e2eEvent{Kind: "req", B: dress})
+					method, hdr := "GET", map[string]string(nil)
+					switch dress {
+					case "upgrade-websocket":
+						hdr = map[string]string{"Connection": "Upgrade", "Upgrade": "websocket", "Sec-WebSocket-Version": "13", "Sec-WebSocket-Key": "dGhlIHNhbXBsZSBub25jZQ=="}
+						dressed++
+					case "upgrade-h2c":
+						hdr = map[string]string{"Connection": "Upgrade, HTTP2-Settings", "Upgrade": "h2c", "HTTP2-Settings": "AAMAAABkAAQCAAAAAAIAAAAA"}
+						dressed++
+					case "post":
+						method = "POST"
+					case "head":
+						method = "HEAD"
+					}
+					status, _, _, aborted := lab.Serve(lb, lab.Request(method, "/x", client, hdr))
 					hit := fn.Arrivals() - before
 					if hit > 1 {
 						viol = fmt.Sprintf("one client request reached backends %d times", hit)
@@ -195,6 +212,9 @@ func TestC07EndToEnd(t *testing.T) {
 		}
 		if mon.Closed > 0 {
 			labels = append(labels, "closed-again")
+		}
+		if dressed > 0 {
+			labels = append(labels, "upgrade-offering-requests")
 		}
 		sub.Case(map[string]any{"cfg": fmt.Sprintf("%+v", c), "strategy": strategy, "backends": nb, "events": evs}, mon.Opened > 0 && mon.HalfSeen > 0, labels...)
 		if viol != "" {
